@@ -220,7 +220,7 @@ impl UpdatePool {
         };
 
         let warm_up = if self.do_warm_up {
-            Some(spawn_warm_up::<H>(&self.worker_tp, params))
+            Some(spawn_warm_up::<H>(params))
         } else {
             None
         };
@@ -567,19 +567,23 @@ struct WarmUpHandle {
     output_rx: Receiver<TaskResult<std::io::Result<WarmUpOutput>>>,
 }
 
-fn spawn_warm_up<H: HashAlgorithm>(
-    worker_tp: &ThreadPool,
-    params: worker::WarmUpParams,
-) -> WarmUpHandle {
+fn spawn_warm_up<H: HashAlgorithm>(params: worker::WarmUpParams) -> WarmUpHandle {
     let (warmup_tx, warmup_rx) = channel::unbounded();
     let (output_tx, output_rx) = channel::bounded(1);
     let (finish_tx, finish_rx) = channel::bounded(1);
 
-    spawn_task(
-        &worker_tp,
-        move || worker::run_warm_up::<H>(params, warmup_rx, finish_rx),
-        output_tx,
-    );
+    // The warm-up worker lives as long as its session, so it gets a thread of its own rather
+    // than a slot of the commit pool: there, the workers of sessions that coexist would queue up
+    // behind each other and finishing one session would wait for another one to end.
+    std::thread::Builder::new()
+        .name("nomt-warm-up".to_string())
+        .spawn(move || {
+            let res = std::panic::catch_unwind(std::panic::AssertUnwindSafe(|| {
+                worker::run_warm_up::<H>(params, warmup_rx, finish_rx)
+            }));
+            let _ = output_tx.send(res);
+        })
+        .expect("failed to spawn the warm-up thread");
 
     WarmUpHandle {
         warmup_tx,
